@@ -36,6 +36,26 @@ Proof.
   unfold apply_wiring. rewrite !view_clone_base, V. reflexivity.
 Qed.
 
+(* the same along whole chains of derivations of any length *)
+Lemma same_chain_same_view xw st i j ci cj x ch st1 r1 st2 r2 g1 g2 :
+  (forall m, xw m = base_wiring m) ->
+  nth_error st i = Some ci -> nth_error st j = Some cj -> c_x cj = Some x ->
+  view_of (c_g ci) = view_of (c_g cj) ->
+  forallb no_shortcut ch = true ->
+  derive xw st (VG i) ch = Some (st1, r1) -> derive xw st (VX j) ch = Some (st2, r2) ->
+  lookup st1 r1 = Some g1 -> lookup st2 r2 = Some g2 ->
+  view_of g2 = view_of g1.
+Proof.
+  intros Hw Ei Ej X V NS D1 D2 L1 L2.
+  assert (Li : lookup st (VG i) = Some (c_g ci)) by (unfold lookup; simpl; rewrite Ei; reflexivity).
+  assert (Lj : lookup st (VX j) = Some (c_g cj)) by (unfold lookup; simpl; rewrite Ej; reflexivity).
+  destruct (derive_view xw ch st (VG i) st1 r1 (c_g ci) D1 Li NS) as [e1 [h1 [_ [_ [M1 V1]]]]].
+  destruct (derive_view xw ch st (VX j) st2 r2 (c_g cj) D2 Lj NS) as [e2 [h2 [_ [_ [M2 V2]]]]].
+  rewrite L1 in M1. injection M1 as <-. rewrite L2 in M2. injection M2 as <-.
+  rewrite V1, V2, V. f_equal. simpl wt_of. apply map_ext. intros [m a].
+  unfold eff_of. simpl. rewrite Hw. reflexivity.
+Qed.
+
 (* with the pinned template the SrcS stanza drops its argument *)
 Definition c09_store : store :=
   [ mkC (factory_of (new_gerr [70%N] [109%N] [] false)) None;
